@@ -36,6 +36,7 @@ type semSpec struct {
 	args     func(r *sg.Rng, root *sg.Schema) []string
 	intLim   bool
 	parity   bool
+	optsFn   func(i int, o sg.Opts) sg.Opts // per-case variation of the generator options
 }
 
 var commonAssumptions = []string{
@@ -66,7 +67,11 @@ func runSem(ctx *Ctx, sp *semSpec) (*Outcome, error) {
 	}
 	for i := 0; i < n; i++ {
 		r := sg.NewRng(ctx.Seed, fmt.Sprintf("%s-case-%d", sp.id, i))
-		g := sg.NewGen(r, sp.opts)
+		o := sp.opts
+		if sp.optsFn != nil {
+			o = sp.optsFn(i, o)
+		}
+		g := sg.NewGen(r, o)
 		root := g.Root()
 		c := &sem.Case{Root: root, Sig: root.Sig()}
 		if sp.args != nil {
@@ -194,6 +199,17 @@ func init() {
 			return false
 		},
 		modes: []string{"json", "yaml", "yamlblock"}, parity: true,
+		extra: func(ctx *Ctx, i int, r *sg.Rng) *sem.Case {
+			// every numeric keyword pattern, also with fractional constants on integers: both paths must agree
+			// whatever the (possibly defective) common verdict is
+			if c17strata == nil {
+				c17strata = numericStrata(ctx, "C17", true, []string{"--extra-imports"})
+			}
+			if i >= len(c17strata) {
+				return nil
+			}
+			return c17strata[i]
+		},
 		args:   func(r *sg.Rng, _ *sg.Schema) []string { return []string{"--extra-imports"} },
 		nQuick: 350, nThor: 6000, valid: 4, perSite: 3, maxDocs: 90, minDec: 5000,
 		rule: "schemas over the supported feature space generated with --extra-imports; every valid document and every document violating exactly one required/bound/multipleOf/length/pattern/enum rule is decoded through json.Unmarshal, yaml.Unmarshal of the same text, and yaml.Unmarshal of a block-style YAML rendering; verdicts and json.Marshal of the decoded values must be identical; type-fault documents are out of scope (yaml.v3 coerces scalars, DESIGN §3.13)",
@@ -276,3 +292,5 @@ func sameNameTwinCase(ctx *Ctx, i int, r *sg.Rng) *sem.Case {
 	a.Group = []*sem.Case{b}
 	return a
 }
+
+var c17strata []*sem.Case
